@@ -937,6 +937,36 @@ impl<const N: usize> ScenN<N> {
         if toks[0] == "snap" {
             return self.snapshot();
         }
+        if toks[0] == "fault" && toks.len() >= 5 {
+            // fault <create|open|write|sync> <nth> <path pattern> <fail:<errno>|short:<n>> [sticky]
+            let kind = match toks[1] {
+                "create" => pearl::verif::OpKind::Create,
+                "open" => pearl::verif::OpKind::Open,
+                "write" => pearl::verif::OpKind::Write,
+                "sync" => pearl::verif::OpKind::Sync,
+                _ => return "bad-op".into(),
+            };
+            let nth: u64 = toks[2].parse().unwrap_or(0);
+            let action = if let Some(e) = toks[4].strip_prefix("fail:") {
+                pearl::verif::Action::Fail(e.parse().unwrap_or(5))
+            } else if let Some(n) = toks[4].strip_prefix("short:") {
+                pearl::verif::Action::Short(n.parse().unwrap_or(0))
+            } else {
+                return "bad-op".into();
+            };
+            pearl::verif::arm(pearl::verif::Failpoint {
+                kind,
+                pattern: toks[3].to_string(),
+                nth,
+                action,
+                sticky: toks.get(5).copied() == Some("sticky"),
+            });
+            return "ok".into();
+        }
+        if toks[0] == "clearfaults" {
+            pearl::verif::clear_failpoints();
+            return "ok".into();
+        }
         if toks[0] == "replayfrom" && toks.len() >= 2 {
             // replace the directory by a committed corpus directory (written by the pinned release) and reopen
             if let Some(st) = self.st.take() {
